@@ -1,12 +1,14 @@
 #!/bin/bash
-# collect.sh <ID>: copy a sub-agent's patches/demos from /tmp/mut/<ID> into /verif/seeded/<ID>/m<k>/ and remove the worktree
+# collect.sh <ID> [offset]: copy a sub-agent's patches/demos from /tmp/mut/<ID> into /verif/seeded/<ID>/m<k+offset>/
+# and remove the scratch worktree
 set -e
-id=$1
-for k in 1 2 3; do
+id=$1; off=${2:-0}
+for k in 1 2 3 4 5; do
   if [ -f /tmp/mut/$id/patch$k.diff ]; then
-    mkdir -p /verif/seeded/$id/m$k
-    cp /tmp/mut/$id/patch$k.diff /verif/seeded/$id/m$k/patch.diff
-    cp /tmp/mut/$id/demo$k.md /verif/seeded/$id/m$k/demo.md 2>/dev/null || true
+    d=/verif/seeded/$id/m$((k+off))
+    mkdir -p $d
+    cp /tmp/mut/$id/patch$k.diff $d/patch.diff
+    cp /tmp/mut/$id/demo$k.md $d/demo.md 2>/dev/null || true
   fi
 done
 git -C /repo worktree remove --force /tmp/mut/$id
